@@ -14,6 +14,7 @@ TOKENS = [
     ("%E9", "non-utf8"), ("%C3", "non-utf8"), ("%C3%28", "non-utf8"), ("%FF", "non-utf8"), ("%ED%A0%80", "non-utf8-surrogate"), ("%C0%AF", "non-utf8-overlong"),
     ("%E2%82", "non-utf8-truncated"), ("%F0%9F%98", "non-utf8-truncated"), ("%F0%9F", "non-utf8-truncated"), ("%e2%82", "non-utf8-truncated"),
     ("%00", "esc-control"), ("%0A", "esc-control"), ("%1F", "esc-control"), ("%7F", "esc-del"), ("%C2%80", "esc-c1"), ("%C2%9F", "esc-c1"), ("%C2%A0", "esc-nbsp"),
+    ("%4٣", "malformed-nonascii-digit"), ("%٣a", "malformed-nonascii-digit"), ("%４１", "malformed-nonascii-digit"), ("%٣٣", "malformed-nonascii-digit"),
     ("amp;", "amp-entity-tail"), ("amp%3B", "amp-entity-tail"), ("%2541", "nested"), ("%252F", "nested"), ("%25%34%31", "nested"), ("%2525", "nested"),
 ]
 CLASS_OF = {}
@@ -22,7 +23,7 @@ for t, c in TOKENS:
 
 # the core alphabet enumerated exhaustively (one or two representatives per class of the quantifier)
 CORE = ["a", "z", "1", ".", "!", "+", ":", "@", "/", "?", "=", "&", "#", "%2F", "%3F", "%23", "%26", "%3D", "%40", "%3A", "%25", "%2B", "%41", "%34", "%c3%a9", "%cE%b1",
-        "é", " ", "%20", "%", "%4", "%zz", "%E9", "%E2%82", "%00", "%0A", "%7F", "%C2%80", "%2541"]
+        "é", " ", "%20", "%", "%4", "%zz", "%4٣", "%E9", "%E2%82", "%00", "%0A", "%7F", "%C2%80", "%2541"]
 
 
 def classes_of(tokens):
